@@ -127,6 +127,7 @@ def run(ctx):
     decoding_params_provenance(ctx, ctx.rule("C01.R5", DECODING_TEXT, "WWF + value provenance"))
     from . import c07 as _c07
     once_rule(ctx, ctx.rule("C01.R7", ONCE_TEXT, "E3 decision table over calls"))
+    trailer_rule(ctx, ctx.rule("C01.R11", TRAILER_TEXT, "DOM"))
     block_addressing_rule(ctx, ctx.rule("C01.R9", ADDR_TEXT, "value shape + DOM"))
     from . import c08
     r8 = ctx.rule("C01.R8", "the sender never tells the receiver to close the object before its last packet (a premature close-object flag makes a "
@@ -258,6 +259,47 @@ def metadata_flow_receiver(ctx, rule):
                 rule.violation(key, "ObjectMetadata.%s does not read ObjectReceiver.%s (sources: %s)" % (
                     mf, of, ", ".join(sorted(srcs))[:200]), loc(s.sp))
     rule.floor(len(RECV_FIELDS) + len(META_FIELDS), "receiver metadata fields")
+
+
+TRAILER_TEXT = ("content-encoded objects: once the announced content length has been delivered (content_length_left == Some(0)) decoder_read stops draining the "
+                "inflater, so BlockWriter::decode_write_pkt must not feed it any further - the bytes that remain are the trailer of the encoded stream (gzip CRC / "
+                "ISIZE, zlib Adler-32) and may arrive in a later source block than the last content byte; feeding them fills the ring buffer, nothing is "
+                "consumed and the block is reported as an error (or, before fix F7, loops for ever)")
+
+
+def trailer_rule(ctx, rule):
+    prog = ctx.prog
+    BW = "receiver::blockwriter::BlockWriter"
+    f = prog.fn(BW + "::decode_write_pkt")
+    ctx.analysed(f.path)
+    fl = Flow(f.body)
+    from ..loops import natural_loops
+    inloop = set()
+    for h, blocks, srcs in natural_loops(f.body):
+        inloop |= set(blocks)
+    ws = [s_ for s_ in call_sites(f, lambda p, c: c.get("name") == "write" and "Decompress" in (c.get("trait") or p)) if s_.bb in inloop]
+    if not ws:
+        raise model.AnchorMissing("decode_write_pkt: no Decompress::write call inside its loop")
+    dr = prog.fn(BW + "::decoder_read")
+    dfl = Flow(dr.body)
+    stops = any(any(a[0] == "eq" and t and "content_length_left" in show(a[1]) + show(a[2]) and "Some{0: 0}" in show(a[1]) + show(a[2]) for (a, t) in dfl.facts_at(bb))
+                for bb, e in ret_assign_blocks(dr.body, lambda e: is_variant(e, "Ok")))
+    if stops:
+        rule.ok("decoder_read stops at the content length", "returns Ok under content_length_left == Some(0)", loc(dr.sp))
+    else:
+        rule.ok("decoder_read drains regardless of the content length", "no early return found: the feeding side is not constrained", loc(dr.sp))
+    for s_ in ws:
+        fs = fl.facts_at(s_.bb)
+        guarded = any(a[0] == "eq" and not t and "content_length_left" in show(a[1]) + show(a[2]) and "Some{0: 0}" in show(a[1]) + show(a[2]) for (a, t) in fs) or \
+            any(a[0] == "variant" and "content_length_left" in show(a[1]) and a[2] == "None" and t for (a, t) in fs)
+        key = "decode_write_pkt feeds the inflater only while content is still expected"
+        if guarded or not stops:
+            rule.ok(key, "Decompress::write dominated by content_length_left != Some(0)", s_.loc)
+        else:
+            rule.violation(key, "the loop keeps calling Decompress::write after the whole content was delivered: the trailer of the encoded stream (8 bytes for "
+                                "gzip, 4 for zlib), when it falls into a later source block than the last content byte, is pushed into a ring buffer nobody "
+                                "drains and the object ends in error although every packet was received", s_.loc)
+    rule.floor(2, "trailer facts")
 
 
 ADDR_TEXT = ("receiver-side block addressing in push_to_block2: the slot of a packet is block_offset = SBN - blocks_offset (window-relative), the block "
